@@ -364,6 +364,33 @@ def udq_assoc(ctx):
             check_value(ctx, cid, 'UnitDualQuaternion.mul', dict(Pm, law='X(Yp)'), r[1], want, sc)
 
 
+def temporaries(ctx):
+    """a series of poses applied to a point with every pose object a temporary (created, used once, dropped - what `for X in path: UDQ(X) * p`
+    does): each result is that pose's R p + t, whatever storage the previous temporary left behind"""
+    import spatialmath as sm
+    tier, seed = ctx.tier, ctx.seed
+    G = alph.subset(gens('SE3', tier, seed), 9, 3)
+    p = np.array([0.3, -0.2, 0.5])
+    routes3 = [('UnitDualQuaternion(SE3).mul', lambda M: sm.UnitDualQuaternion(sm.SE3(M.copy())) * p.copy(), lambda M: apply_ref(M, p)),
+               ('SE3.mul', lambda M: sm.SE3(M.copy()) * p.copy(), lambda M: apply_ref(M, p)),
+               ('UnitQuaternion(R).mul', lambda M: sm.UnitQuaternion(M[:3, :3].copy()) * p.copy(), lambda M: apply_ref(M[:3, :3], p)),
+               ('SO3.mul', lambda M: sm.SO3(M[:3, :3].copy()) * p.copy(), lambda M: apply_ref(M[:3, :3], p))]
+    for rname, f, want in routes3:
+        for start in range(len(G)):
+            seq = [G[(start + 2 * j) % len(G)] for j in range(4)]
+            cid = 'C06/temporaries/%s/start=%d' % (rname, start)
+            if not ctx.want(cid):
+                continue
+            ctx.case(cid, key=cid)
+            ok, r = call(lambda: [f(M) for _, M in seq])
+            Pm = dict(cls=rname.split('.')[0].split('(')[0], law='temporaries')
+            if not ok:
+                ctx.fail(cid, rname, 'raises:' + type(r).__name__, Pm, '%r' % (r,))
+                continue
+            for j, ((gn, M), v) in enumerate(zip(seq, r)):
+                check_value(ctx, cid, rname, dict(Pm, j=j, g=gn.split('|')[0]), v, want(M), scale(M, p) * conv_slack(rname, gn))
+
+
 def qvmul_cases(ctx):
     import spatialmath.base as b
     tier, seed = ctx.tier, ctx.seed
@@ -393,6 +420,7 @@ def shards(tier, seed):
         out += [('multi', c), ('rel', c), ('relmulti', c)]
     out.append(('qvmul',))
     out.append(('udq',))
+    out.append(('temporaries',))
     return out
 
 
@@ -408,5 +436,7 @@ def run_shard(ctx, shard):
         relational_multi(ctx, shard[1])
     elif k == 'udq':
         udq_assoc(ctx)
+    elif k == 'temporaries':
+        temporaries(ctx)
     else:
         qvmul_cases(ctx)
